@@ -124,7 +124,8 @@ def run(outcome, _harnesses):
     core = gen.core_templates()
     templates = [x for x in core if "C05" in x["tags"]]
     if t == "thorough":
-        templates = core + gen.operand_position_templates() + gen.lambda_templates() + gen.try_templates()
+        # (the operand-position family is C02's / C01's: its known findings are keyed there)
+        templates = core + gen.lambda_templates() + gen.try_templates()
     cov = tvrun.run_templates("C05", outcome, templates, modes=("opt", "noopt"), validate_vm=(t == "thorough"))
     stats = {"queries": 0, "solver_s": 0.0}
     n, hold, fsamples = float_family(outcome, stats)
@@ -141,7 +142,7 @@ def run(outcome, _harnesses):
     cov["functions_encoded"] = ["optimize_bytecode::optimize and assembly::remove_labels_and_constants (run for real, on and off)",
                                 "vm instruction model of engine S incl. the immediate forms", "reference semantics R"]
     cov["bounds"] = ("%d integer templates x 2 modes (every arithmetic / comparison operator with variable, literal {0,1,-1,7,MAX,MIN}, literal-left "
-                     "and compound-assignment operands; thorough: the whole C02 family); float literal family: 9 operators x %d literals + -0.0 + "
+                     "and compound-assignment operands; thorough: plus the lambda and `?`/`!` families); float literal family: 9 operators x %d literals + -0.0 + "
                      "constant folding of 1.0 / 0.0, non-NaN x. Outside: K-level validation of optimize() itself (out of CBMC's reach, measured), "
                      "float ^ and intrinsics." % (len(templates), len(FLOAT_LITS)))
     # literal operands at the VM level: the immediate arms of the REAL step() against the same oracle as the variable arms (engine K);
